@@ -151,6 +151,7 @@ func shardTable(ups []string, count int) [][2]interface{} {
 // driving the real store
 
 const hugePeriod = time.Hour // periodic mode: every flush of a case is an explicit Flush()/Stop()
+const hangAfter = 60 * time.Second
 
 var reGoID = regexp.MustCompile(`^goroutine (\d+) \[`)
 
@@ -259,7 +260,7 @@ type outcome struct {
 
 func (o outcome) bad(what string) *failure {
 	if o.hung {
-		return &failure{kind: "judge", class: "c19.hang", what: what + " did not return within 20 s"}
+		return &failure{kind: "judge", class: "c19.hang", what: what + " did not return within 60 s"}
 	}
 	if o.panicked != "" {
 		return &failure{kind: "judge", class: "c19.panic", what: what + " panicked: " + o.panicked}
@@ -295,7 +296,7 @@ func await(done chan outcome) outcome {
 	select {
 	case o := <-done:
 		return o
-	case <-time.After(20 * time.Second):
+	case <-time.After(hangAfter):
 		return outcome{hung: true}
 	}
 }
@@ -325,17 +326,20 @@ func (r *runner) thunk(op OpJ) func() error {
 	return nil
 }
 
-// order hint for the model from the calls the real store made: which cache entries it visited, in which order
+// order hint for the model from the calls the real store made: which cache entries it visited, in which order.
+// A flush starts a new entry with an Update right after the previous entry ended (Update or Create answered ok);
+// every other Update is a retry for the same entry.
 func orderHint(op OpJ, before []locEntry, log []callRec) [][2]string {
 	ord := [][2]string{}
 	used := map[int]bool{}
 	seen := map[[2]string]bool{}
+	ended := true
 	for _, c := range log {
 		if c.Intruder {
 			continue
 		}
 		switch {
-		case (op.Op == "flush" || op.Op == "stop") && c.Kind == "update" && c.Obj != nil:
+		case (op.Op == "flush" || op.Op == "stop") && c.Kind == "update" && c.Obj != nil && ended:
 			for i, e := range before {
 				// the first attempt of createOrUpdate sends the cached object with an empty resourceVersion
 				if !used[i] && e.Cond.Name == c.Obj.Name && e.Cond.Up == c.Obj.Up && e.Cond.Spec == c.Obj.Spec &&
@@ -352,6 +356,7 @@ func orderHint(op OpJ, before []locEntry, log []callRec) [][2]string {
 				ord = append(ord, p)
 			}
 		}
+		ended = (c.Kind == "update" || c.Kind == "create") && c.Res == "ok"
 	}
 	return ord
 }
